@@ -92,7 +92,9 @@ Proof.
   rewrite (records_plain t b rest F2 Hn). cbn [xls_globals].
   unfold xjunk_ok in H. cbn [fst snd] in H.
   apply andb_true_iff in H. destruct H as [H _]. apply andb_true_iff in H. destruct H as [H _].
-  apply orb_true_iff in H. destruct H as [H|H]; [apply orb_true_iff in H; destruct H as [H|H]|].
+  apply orb_true_iff in H. destruct H as [H|H];
+    [apply orb_true_iff in H; destruct H as [H|H];
+     [apply orb_true_iff in H; destruct H as [H|H]|]|].
   - apply negb_true_iff in H. unfold xls_interpreted in H.
     repeat (apply orb_false_iff in H; destruct H as [H ?]).
     repeat match goal with E : (t =? _) = false |- _ => rewrite E; clear E end.
@@ -102,6 +104,9 @@ Proof.
   - apply andb_true_iff in H. destruct H as [Ht Hl]. apply N.eqb_eq in Ht. subst t.
     cbn. replace (len b <? 4) with false by lia. replace (len b <? 5) with false by lia.
     reflexivity.
+  - (* a CodePage record of any value *)
+    apply andb_true_iff in H. destruct H as [Ht Hl]. apply N.eqb_eq in Ht. subst t.
+    cbn. replace (len b <? 2) with false by lia. reflexivity.
 Qed.
 
 Lemma globals_junk : forall j rest st, forallb xjunk_ok j = true -> nc rest ->
